@@ -270,7 +270,7 @@ func (ps *specParser) unary() Expr {
 	t := ps.peek()
 	if t.kind == "op" {
 		switch t.text {
-		case "!", "-", "^", "+":
+		case "!", "-", "^", "+", "&":
 			ps.p++
 			x := ps.unary()
 			return &Unary{Op: t.text, X: x}
